@@ -106,7 +106,7 @@ const CHARS: &[&str] = &[
     "\"", "<", "&",
 ];
 const POOL: &[&str] = &[
-    "", "A", "APP", "APP1", "CTX", "ECU", "é", "€a", "TEST", "Ab7 ", "NONE", "APP ",
+    "", "A", "APP", "APP1", "CTX", "ECU", "é", "€a", "TEST", "Ab7 ", "NONE", "APP ", "app", "Ecu",
 ];
 
 fn short_text(u: &mut U, max: usize) -> String {
@@ -708,6 +708,7 @@ pub fn run(id: &str, data: &[u8]) -> Option<Outcome> {
                 1 + u.below(7) as u8
             };
             let stream = stream(u, storage);
+            let filter2 = if u.chance(40) { Some(u.below(8) as u8) } else { None };
             if id == "C07" {
                 let c = c07::Case {
                     stream,
@@ -715,6 +716,7 @@ pub fn run(id: &str, data: &[u8]) -> Option<Outcome> {
                     schedule: sched,
                     reader_kind,
                     filter,
+                    filter2,
                     systematic: false,
                 };
                 let r = c07::check(&c);
@@ -726,6 +728,7 @@ pub fn run(id: &str, data: &[u8]) -> Option<Outcome> {
                     schedule: sched,
                     reader_kind,
                     filter,
+                    filter2,
                     systematic: false,
                 };
                 let r = c08::check(&c);
